@@ -478,9 +478,20 @@ class Rendering:
 
 
 def eq_string(sub, prod, r=None):
+    """equation text; with a random source, coefficients >= 2 are sometimes written as repeated terms ('A + B + 2 A' for 3 A + B:
+    repeats on one side add up) and the terms of a side come in any order"""
     def side(d):
-        parts = []
+        terms = []
         for l, c in d.items():
+            if r is not None and c >= 2 and r.random() < 0.3:
+                k = r.randint(1, c - 1)
+                terms += [(k, l), (c - k, l)]
+            else:
+                terms.append((c, l))
+        if r is not None and len(terms) > 1 and r.random() < 0.5:
+            r.shuffle(terms)
+        parts = []
+        for c, l in terms:
             if c == 1 and (r is None or r.random() < 0.7):
                 parts.append(l)
             else:
